@@ -333,6 +333,10 @@ class PersistenceDecorator(TickPersistenceDecorator):
                 continue
             try:
                 replayed = await self.context_from_ticks(workflow, run_id)
+                if run_id in self._active_run_ids:
+                    # Reloaded on demand (a client event arrived) while the
+                    # replay above was reading the store.
+                    continue
 
                 if replayed is None:
                     # A fresh-start attempt here would build a StartEvent from
